@@ -42,7 +42,7 @@ var c15Placements = []string{"direct", "grouping-local", "grouping-other-module"
 	// the same expression text written twice: in a grouping of the defining module and directly in the module that uses that grouping
 	"grouping-other-module-plus-own-copy"}
 var c15Stmts = []string{"must", "when", "path"}
-var c15PrefixUses = []string{"none", "own", "imported-by-definer-only", "imported-by-user-only", "same-prefix-different-modules", "undeclared"}
+var c15PrefixUses = []string{"none", "own", "imported-by-definer-only", "imported-by-user-only", "same-prefix-different-modules", "undeclared", "same-prefix-in-included-submodule"}
 
 type c15Expr struct {
 	name  string
@@ -185,6 +185,12 @@ func c15Build(placement, stmt, pu string, ex c15Expr, custom string) *c15Case {
 	case "undeclared":
 		p = "zz:"
 		c.expectAccept = false
+	case "same-prefix-in-included-submodule":
+		// the writing module includes a submodule that binds the same prefix to another module:
+		// prefixes are scoped per module / submodule text
+		imp(writer, "c15-x", "x")
+		p = "x:"
+		c.expectNS = nsX
 	}
 	c.prefix = strings.TrimSuffix(p, ":")
 	if placement == "grouping-other-module-plus-own-copy" {
@@ -192,7 +198,7 @@ func c15Build(placement, stmt, pu string, ex c15Expr, custom string) *c15Case {
 		switch pu {
 		case "own":
 			c.expectNS2 = nsDef // "d" is also the prefix under which the using module imports the defining one
-		case "imported-by-definer-only":
+		case "imported-by-definer-only", "same-prefix-in-included-submodule":
 			c.expectAccept = false // the using module does not know the prefix
 		case "same-prefix-different-modules":
 			c.expectNS2 = nsY
@@ -276,6 +282,11 @@ func c15Build(placement, stmt, pu string, ex c15Expr, custom string) *c15Case {
 		imp(use, "c15-def", "d")
 		useTop.Add(yang.S("leaf", "carrier", yang.S("type", "d:lr")))
 	}
+	if pu == "same-prefix-in-included-submodule" {
+		writer.Add(yang.S("include", "c15-wsub"))
+		mods = append(mods, yang.S("submodule", "c15-wsub", yang.S("belongs-to", writer.Arg, yang.S("prefix", "w")), yang.S("import", "c15-y", yang.S("prefix", "x")),
+			yang.S("container", "in-sub", yang.S("leaf", "name", yang.S("type", "string")))))
+	}
 	for _, m := range mods {
 		yang.SortSections(m)
 	}
@@ -345,7 +356,7 @@ func (p *c15) gen(tier string, seed int64, idx int) *c15Case {
 		if hasPrefixed && (pu == "imported-by-user-only" || pu == "undeclared") {
 			c.expectAccept = false
 		}
-		if hasPrefixed && pl == "grouping-other-module-plus-own-copy" && pu == "imported-by-definer-only" {
+		if hasPrefixed && pl == "grouping-other-module-plus-own-copy" && (pu == "imported-by-definer-only" || pu == "same-prefix-in-included-submodule") {
 			c.expectAccept = false // the copy written in the using module cannot resolve the prefix
 		}
 		if !hasPrefixed {
